@@ -21,7 +21,7 @@ pub mod c19;
 
 use crate::engine::Cfg;
 
-pub const SCENARIOS: &[&str] = &["c01", "c02a", "c02b", "c03", "c04a", "c04b", "c04c", "c04d", "c05", "c06mpsc", "c06spsc", "c06mpmc", "c08", "c09", "c10s", "c10f", "c11c", "c11b", "c11w", "c12", "c13", "c14s", "c14sel", "c15", "c16q", "c16sel", "c17s", "c17d", "c18t", "c18c", "c19v1", "c19plain"];
+pub const SCENARIOS: &[&str] = &["c01", "c02a", "c02b", "c03", "c04a", "c04b", "c04c", "c04d", "c05", "c06mpsc", "c06spsc", "c06mpmc", "c08", "c09", "c10s", "c10f", "c11c", "c11b", "c11w", "c12", "c13", "c14s", "c14sel", "c15", "c16q", "c16sel", "c17s", "c17d", "c18t", "c18c", "c19v1", "c19plain", "c19wake"];
 
 pub fn run(name: &str, seed: u64, ov: impl FnMut(&mut Cfg)) -> ! {
     match name {
@@ -57,6 +57,7 @@ pub fn run(name: &str, seed: u64, ov: impl FnMut(&mut Cfg)) -> ! {
         "c18c" => c18::run_cancel(seed, ov),
         "c19v1" => c19::run_v1(seed, ov),
         "c19plain" => c19::run_plain(seed, ov),
+        "c19wake" => c19::run_wake(seed, ov),
         _ => {
             eprintln!("unknown scenario {}", name);
             std::process::exit(2);
